@@ -1,0 +1,25 @@
+//go:build verif
+
+package state
+
+import "time"
+
+// VerifAgeSessions simulates the passage of time by moving the last activity
+// of every session back by the given duration.
+// Verification hook: only compiled with the "verif" build tag.
+func (state *State) VerifAgeSessions(d time.Duration) {
+	state.sessionsLock.Lock()
+	defer state.sessionsLock.Unlock()
+
+	for _, s := range state.sessions {
+		s.lock.Lock()
+		s.lastActivity = s.lastActivity.Add(-d)
+		s.lock.Unlock()
+	}
+}
+
+// VerifCleanSessions runs one tick of the session cleaner.
+// Verification hook: only compiled with the "verif" build tag.
+func (state *State) VerifCleanSessions() {
+	state.cleanSessions()
+}
